@@ -67,6 +67,17 @@ class Path:
     exit: str = "fall"
     value: Optional[ast.expr] = None
     exit_node: Optional[ast.AST] = None
+    calls: list = field(default_factory=list)  # every call evaluated on the path: (func text, Call after substitution, statement)
+
+    def note_calls(self, e: Optional[ast.expr], node: ast.AST) -> None:
+        if e is None:
+            return
+        for c in ast.walk(e):
+            if isinstance(c, ast.Call):
+                self.calls.append((norm(c.func), c, node))
+
+    def called(self, suffix: str) -> list:
+        return [c for c in self.calls if c[0] == suffix or c[0].endswith("." + suffix)]
 
     def add_cond(self, t: ast.expr, pol: bool) -> None:
         """Record a decision and the facts it implies: a false ``a or b`` makes both false, a true
@@ -83,7 +94,7 @@ class Path:
                 left = c
 
     def copy(self) -> "Path":
-        return Path(list(self.conds), dict(self.env), list(self.effects), self.exit, self.value, self.exit_node)
+        return Path(list(self.conds), dict(self.env), list(self.effects), self.exit, self.value, self.exit_node, list(self.calls))
 
     def cond_texts(self) -> list[tuple[str, bool]]:
         return [(norm(t), p) for t, p in self.conds]
@@ -220,7 +231,9 @@ class Enumerator:
                 q.add_cond(t, pol)
                 out.extend(self._values(q, arm))
             return out
-        return [(p, subst(e, p.env))]
+        v = subst(e, p.env)
+        p.note_calls(v, e)
+        return [(p, v)]
 
     @staticmethod
     def _contradicts(p: Path, t: ast.expr, pol: bool) -> bool:
@@ -308,6 +321,7 @@ class Enumerator:
             return [p]
         if isinstance(st, ast.If):
             t = subst(st.test, p.env)
+            p.note_calls(t, st)
             out = []
             known = self._known(t)
             for pol, block in ((True, st.body), (False, st.orelse)):
@@ -416,3 +430,55 @@ def declared_nonnull(R, f):
         return False
 
     return pred
+
+
+def feasible_paths(paths: list[Path], subject: str, value, globals_: Optional[dict] = None) -> list[Path]:
+    """Paths that remain possible when ``subject`` - a local / parameter name or the normalised text
+    of any expression (conditions are recorded after substitution, so a dispatch on ``ext`` may read
+    ``name.suffix.removeprefix('.')``) - has the concrete ``value`` (an int / str / ..., or an
+    ``Opaque`` symbolic constant such as an enum member): every recorded condition that mentions
+    the subject is evaluated by the finite-domain interpreter and must have the recorded polarity;
+    conditions that do not mention it, or cannot be decided, leave the path possible."""
+    from .minieval import Interp, Undecided
+
+    class R(ast.NodeTransformer):
+        def __init__(self):
+            self.hit = False
+
+        def visit(self, node):
+            if isinstance(node, ast.expr) and norm(node) == subject:
+                self.hit = True
+                return ast.copy_location(ast.Name(id="__subject__", ctx=ast.Load()), node)
+            return super().visit(node)
+
+    out = []
+    for q in paths:
+        ok = True
+        for t, pol in q.conds:
+            r = R()
+            t2 = r.visit(clone(t))
+            if not r.hit:
+                continue
+            try:
+                v = bool(Interp(globals_).expr(t2, {"__subject__": value}))
+            except Undecided:
+                continue
+            if v != pol:
+                ok = False
+                break
+        if ok:
+            out.append(q)
+    return out
+
+
+def dispatch_subjects(paths: list[Path], constants: set) -> set[str]:
+    """Texts of the expressions that the paths compare (==, in) with one of ``constants``."""
+    out = set()
+    for q in paths:
+        for t, _ in q.conds:
+            for c in ast.walk(t):
+                if isinstance(c, ast.Compare) and len(c.ops) == 1 and isinstance(c.ops[0], (ast.Eq, ast.In)):
+                    consts = {x.value for x in ast.walk(c.comparators[0]) if isinstance(x, ast.Constant)}
+                    if consts & constants:
+                        out.add(norm(c.left))
+    return out
